@@ -87,3 +87,36 @@ harness!(c20_only_bom_0, check_only_bom, 0);
 harness!(c20_only_bom_2, check_only_bom, 2);
 harness!(c20_only_bom_8, check_only_bom, 8);
 harness!(c20_new_unknown_3, check_new_unknown, 3);
+
+// ---- charset detection of the pinned dependency (deno_media_type::encoding::detect_charset_local_file):
+// "a byte-order mark, or UTF-8 by default".  BOUNDED by the input length N (the function only reads the
+// first two bytes and the length).
+fn check_detect_local<const N: usize>() {
+  let bytes: [u8; N] = kani::any();
+  let r = deno_media_type::encoding::detect_charset_local_file(&bytes);
+  let code: u8 = if N >= 2 && bytes[0] == 0xFF && bytes[1] == 0xFE {
+    1
+  } else if N >= 2 && bytes[0] == 0xFE && bytes[1] == 0xFF {
+    2
+  } else {
+    0
+  };
+  let rb = r.as_bytes();
+  match code {
+    1 => assert!(rb.len() == 8 && rb[0] == b'u' && rb[4] == b'1' && rb[5] == b'6' && rb[6] == b'l' && rb[7] == b'e'),
+    2 => assert!(rb.len() == 8 && rb[0] == b'u' && rb[4] == b'1' && rb[5] == b'6' && rb[6] == b'b' && rb[7] == b'e'),
+    _ => assert!(rb.len() == 5 && rb[0] == b'u' && rb[1] == b't' && rb[2] == b'f' && rb[3] == b'-' && rb[4] == b'8'),
+  }
+}
+#[kani::proof]
+#[kani::unwind(13)]
+fn c20_detect_local_0() { check_detect_local::<0>() }
+#[kani::proof]
+#[kani::unwind(13)]
+fn c20_detect_local_1() { check_detect_local::<1>() }
+#[kani::proof]
+#[kani::unwind(13)]
+fn c20_detect_local_2() { check_detect_local::<2>() }
+#[kani::proof]
+#[kani::unwind(13)]
+fn c20_detect_local_5() { check_detect_local::<5>() }
